@@ -627,11 +627,18 @@ impl<W: Word, B: AsRef<[W]> + AsMut<[W]>> BitFieldSliceMut<W> for BitFieldVec<W,
                 dest[dst_first_word + i] = word | (source[src_first_word + i] << shift);
                 word = source[src_first_word + i] >> (W::BITS - shift);
             }
+            // The last destination word receives the bits carried over from
+            // the previous source word and, if the source extends that far,
+            // the low bits of the corresponding source word.
+            let src_word = src_first_word + (dst_last_word - dst_first_word);
+            if src_word <= src_last_word {
+                word |= source[src_word] << shift;
+            }
             let residual =
                 bit_len - (W::BITS - dst_bit) - (dst_last_word - dst_first_word - 1) * W::BITS;
             let mask = W::MAX >> (W::BITS - residual);
             dest[dst_last_word] &= !mask;
-            dest[dst_last_word] |= source[src_last_word] & mask;
+            dest[dst_last_word] |= word & mask;
         } else {
             // src_first_word != src_last_word && dst_first_word !=
             // dst_last_word && src_bit > dst_bit
